@@ -1418,11 +1418,15 @@ def run_C12(ctx):
             cases.append(dict(conc=True, nq=1, script=sc["script"], sched=sc["sched"], wfree=sc.get("wfree", []), vring="rwlock" if i % 2 else "mutex",
                               predicted=dict(p1=sc["p1"], lost=sc["lost"], died=sc["died"])))
     ctx.notes.append(f"model (VringConc.tla, implementation-shaped) predictions over all complete schedules: {preds}")
-    if ctx.tier == "quick" and len(cases) > 2500:
+    # all complete schedules are model-checked; of those with two kicks (hundreds of thousands since the handler's entry and return
+    # are separate steps) a seeded sample is replayed, those the model flags first
+    limit = (2500, 1200) if ctx.tier == "quick" else (90000, 30000)
+    if len(cases) > limit[0]:
         rnd = random.Random(ctx.seed)
         flagged = [c for c in cases if any(c["predicted"].values())]
         rest = [c for c in cases if not any(c["predicted"].values())]
-        cases = flagged[:1200] + rnd.sample(rest, min(len(rest), 1300))
+        flagged = flagged if len(flagged) <= limit[1] else rnd.sample(flagged, limit[1])
+        cases = flagged + rnd.sample(rest, min(len(rest), limit[0] - len(flagged)))
     cases = replay_or(ctx, "daemon", cases)
     tr = ctx.harness("daemon", cases, shards=12)
     viol = ctx.tlc_tv("TV_VringConc", tr, "daemon", chunk_events=8000)
